@@ -18,6 +18,7 @@ MANIFEST = {
     'note': 'Trusted: scipy.signal.hilbert / medfilt, numpy. Accuracy bounds are properties of the estimators on clean sinusoids (interior = all but 3 cycles / 20 samples at each end), not of arbitrary signals.',
     'technique': 'runtime oracle on the real transforms: analytic ground truth for sinusoids + exact metamorphic scaling + derivative-consistency invariant',
 }
+LOGGER_ON_ODD_SHARDS = True
 BUDGET_S = {'quick': 60, 'thorough': 360}
 NCASES = {'quick': 4000, 'thorough': 40000}
 RULE = ('seeded random sinusoids (method x sr x n x cycles-per-record U(10, n/12) x amplitude 10^U(-1.5,1.5) x phase x 1-3 '
@@ -34,14 +35,43 @@ LIM = {'hilbert': dict(fmax=.07, amax=.07, pmax=.08), 'nht': dict(fmax=.07, amax
 MEAN_IF = 0.01
 
 
+def present_scalar(v, form):
+    """The same number handed over in different ways."""
+    if form == 'np.float64':
+        return np.float64(v)
+    if form == '0-d array':
+        return np.asarray(v, dtype=float)
+    if form == 'int' and float(v) == int(v):
+        return int(v)
+    if form == 'np.int64' and float(v) == int(v):
+        return np.int64(v)
+    return float(v)
+
+
+SR_FORMS = ['float', 'float', 'float', 'np.float64', '0-d array', 'int', 'np.int64']
+
+
 def check_sinusoid(ctx, case):
     from emd import spectra as SP
     method, sr, n, f, A, ph0, ncol = (case[k] for k in ('method', 'sr', 'n', 'f', 'A', 'ph0', 'ncol'))
     t = np.arange(n) / sr
-    x = A * np.cos(2 * np.pi * f * t + ph0)
+    if case.get('exact_zeros'):
+        # a sine that starts at phase 0 on a time axis containing t == 0: samples that are exactly 0.0
+        t = t - (int(case['exact_zeros']) - 1) * (n // 3) / sr
+        x = A * np.sin(2 * np.pi * f * t)
+        ph0 = -np.pi / 2
+        ctx.count('sinusoids_with_exact_zero_samples', int(np.any(x == 0)))
+    else:
+        x = A * np.cos(2 * np.pi * f * t + ph0)
     X = np.tile(x[:, None], (1, ncol))
     ctx.case(digest(method, sr, n, f, A, ph0, ncol), True)
-    IP, IF, IA = SP.frequency_transform(X.copy(), sr, method)
+    sr_arg = present_scalar(sr, case.get('sr_form', 'float'))
+    ctx.count('sample_rate_passed_as:' + case.get('sr_form', 'float'))
+    IP, IF, IA = SP.frequency_transform(X.copy(), sr_arg, method)
+    if not (np.all(np.isfinite(IP)) and np.all(np.isfinite(IF)) and np.all(np.isfinite(IA))):
+        ctx.violation('non-finite:' + method, 'frequency_transform(%s) returned non-finite values for a finite sinusoid (%d non-finite amplitudes)'
+                      % (method, int((~np.isfinite(IA)).sum())), case)
+        return
     ctx.count('sinusoids:' + method)
     if not (IP.shape == IF.shape == IA.shape == X.shape):
         ctx.violation('shape', 'frequency_transform(%s) returned shapes %s %s %s for input %s' % (method, IP.shape, IF.shape, IA.shape, X.shape), case)
@@ -86,7 +116,7 @@ def check_sinusoid(ctx, case):
     ctx.count('accuracy_ok:' + method)
     # exact scale behaviour
     c = case['c']
-    IP2, IF2, IA2 = SP.frequency_transform(c * X, sr, method)
+    IP2, IF2, IA2 = SP.frequency_transform(c * X, sr_arg, method)
     ctx.count('scale_checks')
     if not (np.array_equal(IP2, IP) and np.array_equal(IF2, IF) and np.array_equal(IA2, c * IA)):
         ctx.violation('scale:' + method, 'rescaling the IMF by %g changed phase/frequency or did not scale the amplitude exactly '
@@ -124,8 +154,9 @@ def check_roundtrip(ctx, case):
     from emd import spectra as SP
     prof, sr, start = case['profile'], case['sr'], case['phase_start']
     ctx.case(digest(prof, sr, start), True)
-    ph = SP.phase_from_freq(prof.copy(), sr, phase_start=start)
-    back = SP.freq_from_phase(ph, sr)
+    sr_arg = present_scalar(sr, case.get('sr_form', 'float'))
+    ph = SP.phase_from_freq(prof.copy(), sr_arg, phase_start=start)
+    back = SP.freq_from_phase(ph, sr_arg)
     ctx.count('roundtrips')
     if back.shape != prof.shape:
         ctx.violation('roundtrip-shape', 'round trip changed the shape %s -> %s' % (prof.shape, back.shape), case)
@@ -181,7 +212,8 @@ def gen_case(rng):
         n = int(gens.pick(rng, [512, 1000, 4000]))
         cyc = rng.uniform(10, n / 12)
         return {'kind': 'sin', 'method': gens.pick(rng, ['hilbert', 'nht', 'quad']), 'sr': sr, 'n': n, 'f': float(cyc * sr / n),
-                'A': float(10 ** rng.uniform(-1.5, 1.5)), 'ph0': float(rng.uniform(0, 2 * np.pi)), 'ncol': int(rng.integers(1, 4)), 'c': c}
+                'A': float(10 ** rng.uniform(-1.5, 1.5)), 'ph0': float(rng.uniform(0, 2 * np.pi)), 'ncol': int(rng.integers(1, 4)), 'c': c,
+                'sr_form': gens.pick(rng, SR_FORMS), 'exact_zeros': (int(rng.integers(1, 3)) if rng.random() < .12 else 0)}
     if r < .75:
         sr = float(gens.pick(rng, [1, 100, 512]))
         n = int(gens.pick(rng, [256, 512, 1000]))
@@ -217,7 +249,8 @@ def gen_case(rng):
             prof = prof - prof.mean()                          # sign-changing profile
         if rng.random() < .3:
             prof = np.tile(prof[:, None], (1, 2)) * np.array([1, 1.5])
-        return {'kind': 'rt', 'profile': prof, 'sr': sr, 'phase_start': float(gens.pick(rng, [-np.pi, 0.0, 1.0])), 'const': bool(const) and prof.ndim == 1}
+        return {'kind': 'rt', 'profile': prof, 'sr': sr, 'phase_start': float(gens.pick(rng, [-np.pi, 0.0, 1.0])), 'const': bool(const) and prof.ndim == 1,
+                'sr_form': gens.pick(rng, SR_FORMS)}
     n = int(gens.pick(rng, [256, 512]))
     t = np.arange(n)
     sinus = rng.random() < .5
